@@ -12,6 +12,7 @@ import numpy as np
 NOT_GIVEN, NOSPIN = -1, -2
 RTOL = 1e-11
 DERIVED = ["tidal_heating_global", "dUdM", "dUdw", "dUdO", "k2", "neg_imk2", "mantle_heating", "dedt", "dadt", "dndt", "tidal_susceptibility", "mantle_radiogenic", "core_radiogenic"]
+THERMAL_FEEDBACK = ["surface_temperature", "top_cooling"]
 INPUTS = ["eccentricity", "obliquity", "orbital_frequency", "spin_frequency", "mantle_viscosity", "mantle_shear", "time"]
 
 
@@ -138,6 +139,18 @@ class LW:
             d["_layer_sum_defect"] = abs(float(np.sum(d["mantle_heating"])) - tot) / max(abs(tot), 1e-300)
         d["mantle_radiogenic"] = m.radiogenic_heating
         d["core_radiogenic"] = [l for l in w if not l.is_tidal][0].radiogenic_heating
+        # thermal feedback: surface temperature <-> cooling of the top layer.  The code evaluates ONE step of that fixed point per update
+        # (surface temperature from the current cooling; cooling from the surface temperature of the previous update)
+        top = list(w)[-1]
+        d["surface_temperature"] = w.surface_temperature
+        d["top_cooling"] = top.cooling
+        d["_ts_defect"] = None
+        if w.surface_temperature is not None and w.insolation_heating is not None:
+            from TidalPy.stellar import calc_equilibrium_temperature
+            internal = w.get_internal_heating_to_surface()
+            ts = calc_equilibrium_temperature(np.copy(np.asarray(w.insolation_heating, dtype=float)), w.radius, None if internal is None else np.copy(internal), w.emissivity)
+            a, b = float(np.asarray(w.surface_temperature).ravel()[0]), float(np.asarray(ts).ravel()[0])
+            d["_ts_defect"] = abs(a - b) / max(abs(b), 1e-300)
         d["time"] = w.time
         d["dedt"] = o.get_eccentricity_time_derivative(w)
         d["dadt"] = o.get_semi_major_axis_time_derivative(w)
@@ -188,6 +201,7 @@ class LW:
         self.place(w2, o2, st, False)
         d2 = self.observe(w2, o2)
         d["_other_order_differs"] = [k for k in DERIVED + INPUTS if not close(d[k], d2[k])]
+        d["_thermal_orders_differ"] = [k for k in THERMAL_FEEDBACK if not close(d[k], d2[k], 1e-9)]
         self.table[key] = d
         return d
 
@@ -235,6 +249,14 @@ def replay(W, beh, sabotage=False):
         exp = W.expected(st)
         if got.get("_layer_sum_defect") is not None and got["_layer_sum_defect"] > 1e-12:
             rec["mismatch"].append({"what": "layer_heating_sum", "kind": "derived", "detail": "sum of the tidal layers' heating differs from the global rate by %.3g (relative)" % got["_layer_sum_defect"]})
+        if got.get("_ts_defect") is not None and got["_ts_defect"] > 1e-12:
+            rec["mismatch"].append({"what": "surface_temperature_vs_cooling", "kind": "derived", "detail": "surface temperature differs from the equilibrium temperature of (insolation + the top layer's CURRENT cooling) by %.3g (relative)" % got["_ts_defect"]})
+        # history dependence of the feedback pair: recorded, never blocks the rest of the behaviour
+        soft = [{"what": k, "got": jsonable(got[k]), "fresh": jsonable(exp[k])} for k in THERMAL_FEEDBACK if not close(got[k], exp[k], 1e-9)]
+        if exp["_thermal_orders_differ"]:
+            soft.append({"what": "fresh_orders_disagree", "keys": exp["_thermal_orders_differ"]})
+        if soft:
+            rec["soft"] = soft
         if exp["_other_order_differs"]:
             rec["mismatch"].append({"what": "fresh_orders_disagree", "kind": "derived", "detail": exp["_other_order_differs"]})
         for key in DERIVED + INPUTS:
